@@ -193,6 +193,10 @@ def main():
             disagreements.append((c, m, i, "no result from %s" % ("model" if m is None else "implementation")))
             continue
         classes[m[0]] += 1
+        if not P.get("compare", lambda c: True)(c):
+            if P["nontrivial"](c, m):
+                nontrivial.add(c.key())
+            continue
         if P["nontrivial"](c, m):
             nontrivial.add(c.key())
         ok, why = agree(m, i)
